@@ -70,6 +70,8 @@ def mdp_specs(draw, max_states=10, max_actions=4, max_events=4, min_states=1, al
     hub = draw(st.integers(0, nS - 1))
     if sticky is None:
         sticky = structure and chain is None and draw(st.integers(0, 2)) == 0
+    if chain == "dag":
+        sticky = False
     stick_w = draw(st.sampled_from([4, 10, 30])) if sticky else 0
     nxt, rew, prb = [], [], []
     for s in range(nS):
@@ -88,6 +90,10 @@ def mdp_specs(draw, max_states=10, max_actions=4, max_events=4, min_states=1, al
                 n_e[j] = cands[0]
                 if w[j] == 0:
                     w[j] = 1
+            elif chain == "dag":
+                # finite horizon: every transition goes to a higher state or to the absorbing, reward-free last state, so
+                # value iteration becomes exactly stationary after at most nS sweeps whatever the discount factor
+                n_e = [min(nS - 1, s + 1 + draw(st.integers(0, nS))) for _ in range(nE)]
             else:
                 n_e = [(draw(st.integers(0, nS - 1)) + s + a + e_) % nS for e_ in range(nE)]
             if sticky:
@@ -105,7 +111,7 @@ def mdp_specs(draw, max_states=10, max_actions=4, max_events=4, min_states=1, al
             tot = float(sum(w))
             rn.append(n_e)
             rp.append([x / tot for x in w])
-            rr.append([rewardval(s, a, e_) for e_ in range(nE)])
+            rr.append([0.0 if (chain == "dag" and s == nS - 1) else rewardval(s, a, e_) for e_ in range(nE)])
         nxt.append(rn)
         rew.append(rr)
         prb.append(rp)
@@ -131,7 +137,7 @@ def mdp_specs(draw, max_states=10, max_actions=4, max_events=4, min_states=1, al
                 nxt[s][b] = list(nxt[s][a]); prb[s][b] = list(prb[s][a])
                 rew[s][b] = [r + (sign * mant * tie_u if mask[s] else 0.0) for r in rew[s][a]]
             flags.append("near-tie")
-    if structure and period is None and chain != "hub" and draw(st.integers(0, 3)) == 0:
+    if structure and period is None and chain not in ("hub", "dag") and draw(st.integers(0, 3)) == 0:
         s = draw(st.integers(0, nS - 1))
         for a in range(nA):
             nxt[s][a] = [s] * nE
